@@ -34,6 +34,12 @@ What is transcribed:
   `BackProj.backIntoPost`.  A processor is a function on the voxel array (`Proc`); what it computes is the processor's
   business, where and on which copy it is applied is the projector's.
 
+* `ProjMatrixByBin::set_up` / `ProjMatrixByBinUsingRayTracing::set_up` (with its "already set up with the same
+  characteristics" shortcut), `get_proj_matrix_elems_for_one_bin` with the row cache in both modes
+  (`cache_stores_only_basic_bins` or not), `cache_proj_matrix_elems_for_one_bin`, `get_cached_proj_matrix_elems_for_one_bin`
+  (ProjMatrixByBin.cxx:131-182, 213-283; ProjMatrixByBin.inl:48-112; ProjMatrixByBinUsingRayTracing.cxx:237-420):
+  `MatrixObj.*` — the state machine that decides which rows an object returns after it has been set up several times.
+
 The geometry `G : PDGeom` and the layout `idx` are those of the **projection data passed to the call**
 (`proj_data.get_proj_data_info_sptr()`, `viewgrams.get_min_axial_pos_num()` …), which may be smaller than the geometry the
 projectors were set up with (`*_proj_data_info_sptr >= proj_data_info`: fewer segments, trimmed axial / tangential ranges);
@@ -320,4 +326,120 @@ def axpy (c : K) (x x' : Array K) : Array K := Array.zipWith (fun a b => c * a +
 def zeroImg (n : Nat) : Array K := Array.replicate n 0
 
 end Generic
+
+/-! ### the matrix object: `set_up`, the row cache, re-use for another geometry
+
+`ProjMatrixByBin` keeps the rows it has computed in `cache_collection[view][segment][cache_key(bin)]`.  Which rows it
+returns after it has been `set_up` a second (third, …) time — for another image grid or other projection data — is a
+property of this state machine alone; no arithmetic on `K` is involved.  `G` stands for everything `set_up` reads (the
+projection-data info and, of the image, voxel size, origin and index range); what the concrete matrix type and the
+symmetries compute for a geometry is data (`MatrixData`). -/
+
+/-- the concrete matrix type and the symmetries, as data -/
+structure MatrixData (G K : Type) where
+  /-- `calculate_proj_matrix_elems_for_one_bin(row)` followed by `apply_tof_kernel` for TOF data, for a basic bin -/
+  compute : G → Bin → Row K
+  /-- the basic bin that `symmetries_sptr->find_symmetry_operation_from_basic_bin(bin)` leaves in `bin` -/
+  basicOf : G → Bin → Bin
+  /-- `symm_ptr->transform_proj_matrix_elems_for_one_bin(row)` for the operation that maps the basic bin to `bin` -/
+  transform : G → Bin → Row K → Row K
+
+/-- the members of `ProjMatrixByBin` that decide which row `get_proj_matrix_elems_for_one_bin` returns -/
+structure MatrixObj (G K : Type) where
+  /-- `proj_data_info_sptr`, `image_info_sptr`, `symmetries_sptr`, … as set by the last `set_up` (`none`: never set up) -/
+  geom : Option G
+  /-- `!cache_disabled` -/
+  cacheEnabled : Bool
+  /-- `cache_stores_only_basic_bins` -/
+  onlyBasic : Bool
+  /-- `cache_collection`: `cache_key` is injective on the (axial, tangential, timing) positions that pass the bit check
+      of `set_up`, view and segment are array indices, so the key is the bin -/
+  cache : List (Bin × Row K)
+
+section Matrix
+variable {G K : Type}
+
+/-- a newly constructed matrix (`set_defaults` + `enable_cache` / `store_only_basic_bins_in_cache`) -/
+def MatrixObj.new (cacheEnabled onlyBasic : Bool) : MatrixObj G K := ⟨none, cacheEnabled, onlyBasic, []⟩
+
+/-- `ProjMatrixByBin::set_up` (ProjMatrixByBin.cxx:131-182): stores the geometry, `cache_collection.recycle()` and
+    `resize` — an empty cache.  `ProjMatrixByBinUsingInterpolation::set_up` is this followed by members computed from the
+    arguments only. -/
+def MatrixObj.setUp (m : MatrixObj G K) (g : G) : MatrixObj G K := { m with geom := some g, cache := [] }
+
+/-- `ProjMatrixByBinUsingRayTracing::set_up` (ProjMatrixByBinUsingRayTracing.cxx:237-420):
+    `if (already_setup && *proj_data_info_sptr == *new && voxel_size == new && origin == new && min/max_index == new) return;`
+    otherwise the base-class `set_up`, members computed from the arguments, `already_setup = true; clear_cache();`
+    (the setters of the matrix' own parameters reset `already_setup`; the parameters are fixed here: they are part of `compute`). -/
+def MatrixObj.setUpRT [DecidableEq G] (m : MatrixObj G K) (g : G) : MatrixObj G K :=
+  if m.geom = some g then m else m.setUp g
+
+/-- `get_cached_proj_matrix_elems_for_one_bin` (ProjMatrixByBin.cxx:239): `if (cache_disabled) return Succeeded::no;` then `find` -/
+def MatrixObj.find (m : MatrixObj G K) (b : Bin) : Option (Row K) :=
+  if m.cacheEnabled then m.cache.lookup b else none
+
+/-- `cache_proj_matrix_elems_for_one_bin` (ProjMatrixByBin.cxx:213): `if (cache_disabled) return;` then `std::map::insert`,
+    which leaves an existing entry alone -/
+def MatrixObj.store (m : MatrixObj G K) (b : Bin) (r : Row K) : MatrixObj G K :=
+  if m.cacheEnabled then
+    match m.cache.lookup b with
+    | some _ => m
+    | none => { m with cache := (b, r) :: m.cache }
+  else m
+
+/-- `if (get_cached_proj_matrix_elems_for_one_bin(probabilities) == Succeeded::no) calculate_proj_matrix_elems_for_one_bin(probabilities);`
+    for the basic bin `bb` -/
+def MatrixObj.basicRow (D : MatrixData G K) (m : MatrixObj G K) (g : G) (bb : Bin) : Row K :=
+  match m.find bb with
+  | some r => r
+  | none => D.compute g bb
+
+/-- `ProjMatrixByBin::get_proj_matrix_elems_for_one_bin(probabilities, bin)` (ProjMatrixByBin.inl:48-112), both branches:
+    the row and the new state of the (mutable) cache; `none` = called before `set_up` (null `symmetries_sptr`). -/
+def MatrixObj.getRow (D : MatrixData G K) (m : MatrixObj G K) (bin : Bin) : Option (Row K × MatrixObj G K) :=
+  match m.geom with
+  | none => none
+  | some g =>
+    let bb := D.basicOf g bin
+    if m.onlyBasic then
+      match m.find bb with
+      | some r => some (D.transform g bin r, m)
+      | none =>
+        let r := D.compute g bb
+        some (D.transform g bin r, m.store bb r)
+    else
+      match m.find bin with
+      | some r => some (r, m)
+      | none =>
+        let r := D.transform g bin (m.basicRow D g bb)
+        some (r, m.store bin r)
+
+/-- the row of `bin` for the geometry `g`: the row of its basic bin, transformed — what a matrix that has never seen
+    another geometry returns -/
+def MatrixData.rowOf (D : MatrixData G K) (g : G) (bin : Bin) : Row K :=
+  D.transform g bin (D.compute g (D.basicOf g bin))
+
+/-- one call on the object -/
+inductive MOp (G : Type) where
+  | setUp (g : G)
+  | setUpRT (g : G)
+  | get (b : Bin)
+
+/-- the state after one call (`get` before any `set_up`: state unchanged) -/
+def MatrixObj.step [DecidableEq G] (D : MatrixData G K) (m : MatrixObj G K) : MOp G → MatrixObj G K
+  | .setUp g => m.setUp g
+  | .setUpRT g => m.setUpRT g
+  | .get b => match m.getRow D b with
+    | some (_, m') => m'
+    | none => m
+
+/-- the state after a history of calls -/
+def MatrixObj.exec [DecidableEq G] (D : MatrixData G K) (m : MatrixObj G K) (ops : List (MOp G)) : MatrixObj G K :=
+  ops.foldl (MatrixObj.step D) m
+
+/-- the row a `get_proj_matrix_elems_for_one_bin(bin)` returns in state `m` -/
+def MatrixObj.rowNow (D : MatrixData G K) (m : MatrixObj G K) (bin : Bin) : Option (Row K) :=
+  (m.getRow D bin).map (·.1)
+
+end Matrix
 end StirVerif.C04
